@@ -310,6 +310,14 @@ func c12Payloader(c *mc.Ctx) {
 		if len(pkts) > 1 {
 			multi = true
 		}
+		if gen != nil && fi == 0 {
+			// where a randomly started id sequence begins is not the property's business (only
+			// that it is a 15-bit id): the first packet anchors it
+			var d codecs.VP9Packet
+			if _, err := d.Unmarshal(pkts[0]); err == nil {
+				startID = int(d.PictureID)
+			}
+		}
 		wantID := uint16((startID + fi) & 0x7FFF)
 		c12CheckFrame(c, pkts, keep, fh, flexible, mtu, wantID, desc)
 	}
